@@ -82,16 +82,16 @@ pub fn replay_case(case: &Value, tally: &mut Tally) {
                 let v = limbs_to_words(&c["v"])[0] as usize;
                 // the helpers document the precondition value + n <= usize::MAX (they may panic beyond it)
                 let ok = |d: usize| v.checked_add(d).is_some();
-                let divs: Vec<Value> = bigdivs.iter().map(|d| if ok(*d) { words_to_limbs(&[bits::div_round_up(v, *d) as u64]) } else { json!("precondition") }).collect();
+                let divs: Vec<Value> = bigdivs.iter().map(|d| if ok(*d) { guarded_val(|| words_to_limbs(&[bits::div_round_up(v, *d) as u64])) } else { json!("precondition") }).collect();
                 let exp_divs: Vec<Value> = bigdivs.iter().enumerate().map(|(j, d)| if ok(*d) { c["div"][j].clone() } else { json!("precondition") }).collect();
                 tally.check(hkey(&[10, i as u64]), true, &|| json!({"kind": "bits", "fn": "div_round_up on 64-bit values", "value": format!("{:#x}", v), "divisors": bigdivs}), &json!(exp_divs), &json!(divs));
                 if ok(63) {
-                    tally.check(hkey(&[11, i as u64]), true, &|| json!({"kind": "bits", "fn": "bits_to_words", "value": format!("{:#x}", v)}), &c["bits_to_words"], &words_to_limbs(&[bits::bits_to_words(v) as u64]));
-                    if c["round_bits_fits"] == json!(true) { tally.check(hkey(&[12, i as u64]), true, &|| json!({"kind": "bits", "fn": "round_up_to_word_bits", "value": format!("{:#x}", v)}), &c["round_bits"], &words_to_limbs(&[bits::round_up_to_word_bits(v) as u64])); }
+                    tally.check(hkey(&[11, i as u64]), true, &|| json!({"kind": "bits", "fn": "bits_to_words", "value": format!("{:#x}", v)}), &c["bits_to_words"], &guarded_val(|| words_to_limbs(&[bits::bits_to_words(v) as u64])));
+                    if c["round_bits_fits"] == json!(true) { tally.check(hkey(&[12, i as u64]), true, &|| json!({"kind": "bits", "fn": "round_up_to_word_bits", "value": format!("{:#x}", v)}), &c["round_bits"], &guarded_val(|| words_to_limbs(&[bits::round_up_to_word_bits(v) as u64]))); }
                 }
                 if ok(7) {
-                    tally.check(hkey(&[13, i as u64]), true, &|| json!({"kind": "bits", "fn": "bytes_to_words", "value": format!("{:#x}", v)}), &c["bytes_to_words"], &words_to_limbs(&[bits::bytes_to_words(v) as u64]));
-                    if c["round_bytes_fits"] == json!(true) { tally.check(hkey(&[14, i as u64]), true, &|| json!({"kind": "bits", "fn": "round_up_to_word_bytes", "value": format!("{:#x}", v)}), &c["round_bytes"], &words_to_limbs(&[bits::round_up_to_word_bytes(v) as u64])); }
+                    tally.check(hkey(&[13, i as u64]), true, &|| json!({"kind": "bits", "fn": "bytes_to_words", "value": format!("{:#x}", v)}), &c["bytes_to_words"], &guarded_val(|| words_to_limbs(&[bits::bytes_to_words(v) as u64])));
+                    if c["round_bytes_fits"] == json!(true) { tally.check(hkey(&[14, i as u64]), true, &|| json!({"kind": "bits", "fn": "round_up_to_word_bytes", "value": format!("{:#x}", v)}), &c["round_bytes"], &guarded_val(|| words_to_limbs(&[bits::round_up_to_word_bytes(v) as u64]))); }
                 }
             }
             tally.check(hkey(&[9]), true, &|| json!({"kind": "bits", "fn": "filler_value"}), &json!([0, 1]), &json!([(bits::filler_value(false) == 0) as usize ^ 1, (bits::filler_value(true) == u64::MAX) as usize]));
